@@ -377,6 +377,125 @@ def kill_level(rep: Report, cx: Ctx, rng, sysd, reorder, ref, pad: int, n_saves:
                     q.unlink()
 
 
+def refuse_kinds():
+    import errno
+    return [("OSError(EXDEV)", lambda m: OSError(errno.EXDEV, "Invalid cross-device link (" + m + ")")),
+            ("PermissionError(EACCES)", lambda m: PermissionError(errno.EACCES, "Permission denied (" + m + ")"))]
+
+
+def run_refused_save(ip, impl, refuse, kill: bool):
+    """`impl.save_simulation()` in a forked child in which the move onto the advertised file is refused; with `kill` the
+    child dies right after any later open-for-writing of the advertised path. Exit code: 0 the save returned, 5 the
+    injected refusal propagated, 3 another exception, 9 killed."""
+    import os
+    import sys
+    sys.stdout.flush()
+    sys.stderr.flush()
+    pid = os.fork()
+    if pid == 0:
+        code = 0
+        try:
+            ip.crash, ip.crash_save, ip.fired = None, None, False
+            ip.refuse, ip.refused, ip.kill_on_write_open = refuse, False, kill
+            try:
+                impl.save_simulation()
+            except OSError as e:
+                code = 5 if "injected" in str(e) else 3
+        except BaseException:
+            code = 3
+        finally:
+            os._exit(code)
+    _, status = os.waitpid(pid, 0)
+    return os.waitstatus_to_exitcode(status)
+
+
+def refuse_level(rep: Report, cx: Ctx, rng, sysd, reorder, ref, n_saves: int, only=None):
+    """`os.replace` / `os.rename` onto the advertised file REFUSED (raises OSError / PermissionError without moving
+    anything) during autosave j >= 2, in a forked child: (a) the process goes on — whatever the code does (propagate,
+    fall back) the advertised file must stay a complete previous-or-new snapshot; (b) additionally the process is
+    killed right after any open-for-writing of the advertised path that follows the refusal (an in-place fallback
+    such as shutil.copyfile truncates the only good snapshot). Then resume."""
+    from harness import autosave_util as U
+    from emu_mps.mps_backend import MPSBackend
+    from emu_mps.mps_backend_impl import create_impl
+
+    with U.workdir() as tmp:
+        clock = U.FakeClock(0.0)
+        ip = U.Interposer()
+        ip.clock = clock
+        due = {"on": True}
+        ip.schedule = lambda k: 100.0 * k if due["on"] else -1e9
+        with U.fake_time(clock), ip.installed():
+            impl = create_impl(U.make_data(sysd), U.make_config(sysd, reorder, bitstrings=False))
+            impl.init()
+            base = Path(impl.autosave_file)
+            impl.progress()
+            blobs = {1: base.read_bytes()}
+            for j in range(2, n_saves + 1):
+                if impl.is_finished():
+                    break
+                due["on"] = False
+                impl.progress()
+                due["on"] = True
+                prev = f"c{j - 1}"
+
+                def reset():
+                    U.put_file(base, prev, blobs)
+                    U.put_file(U.new_path(base), "a", blobs)
+                    U.put_file(U.bak_path(base), "a", blobs)
+                    impl.last_save_time = 0.0
+                    ip.save_calls = j - 1
+                    ip.crash, ip.crash_save, ip.fired = None, None, False
+                reset()
+                impl.save_simulation()
+                blobs[j] = base.read_bytes()
+                for ri, (rname, refuse) in enumerate(refuse_kinds()):
+                    for kill in (False, True):
+                        if only is not None and [rname, kill] != list(only):
+                            continue
+                        reset()
+                        rc = run_refused_save(ip, impl, refuse, kill)
+                        st = U.dir_state(base)
+                        outcome = {0: "save_simulation returned", 5: "the refusal propagated", 9: "killed right after the advertised "
+                                   "file was opened for writing", 3: "another exception"}.get(rc, f"exit code {rc}")
+                        rep.case(key=("refuse", sysd["kind"], j, rname, kill),
+                                 sample={"refused": rname, "kill_on_write_open": kill, "outcome": outcome, "save": j, "dir": st})
+                        rep.hist("refused_rename_outcome", outcome)
+                        if rc not in (0, 5, 9):
+                            rep.fail(f"save_simulation raised something else than the refusal after {rname} from the rename",
+                                     dict(system=sysd, save=j, refuse=[rname, kill], dir_base_new_bak=st))
+                            continue
+                        data = dict(system=sysd, reorder=reorder, save=j, refuse=[rname, kill], outcome=outcome, dir_base_new_bak=st)
+                        b = st.split("/")[0]
+                        if rc == 5 and not kill:
+                            cx.ask(f"autosave.crash current {prev} a a {j}", ("states", {"b3": st}, {"b0", "b1", "m1", "b2", "b4"}, "exact"),
+                                   dict(what="directory after a refused rename that propagates"))
+                        if rc == 9:
+                            rep.notes.append("after a refused rename the code opened the advertised file for writing (in-place fallback): "
+                                             "Props.C27.copyFallback_counterexample applies") if not rep.notes or "copyFallback" not in rep.notes[-1] else None
+                        if b not in (prev, f"c{j}"):
+                            rep.fail(f"autosave {j}: the rename onto the advertised file was refused with {rname}"
+                                     + (", then the process was killed right after the code opened the advertised file for writing" if rc == 9 else "")
+                                     + f": the advertised file is {'missing' if b == 'a' else 'not loadable' if b == 'p' else 'snapshot ' + b} "
+                                     f"(directory base/.new/.bak = {st})", data)
+                            continue
+                        ip.save_calls = int(b[1:])
+                        ip.refuse, ip.kill_on_write_open = None, False
+                        try:
+                            res = MPSBackend.resume(base)
+                            msg = U.diff_results(ref, U.canon_results(res)) if ref is not None else None
+                            if msg:
+                                rep.fail(f"resume after a refused rename differs from the uninterrupted run: {msg}", data)
+                            rep.count("resumes_after_refused_rename")
+                        except Exception as e:
+                            rep.fail(f"MPSBackend.resume(base) after a refused rename raised {type(e).__name__}: {e}", data)
+                reset()
+                U.put_file(base, f"c{j}", blobs)
+                ip.save_calls = j
+            for q in tmp.iterdir():
+                q.unlink()
+
+
 def loop_level(rep: Report, cx: Ctx, rng, sysd, reorder, ref, n_scen):
     """Parts B/D: a crash inside the real `_run` loop at a seeded (autosave, point), resume; optionally a
     second crash in the resumed process (fake clock also in emu_mps.mps_backend) and a second resume."""
@@ -685,6 +804,9 @@ def check(rep: Report, tier: str, seed: int) -> None:
         if ki == 0:
             aliased_level(rep, cx, sysd, reorder)
             lap("aliased_level")
+        if ki == 0 or not quick:
+            refuse_level(rep, cx, rng, sysd, reorder, ref, n_saves=2 if quick else 3)
+            lap("refuse_level")
         loop_level(rep, cx, rng, sysd, reorder, ref, n_scen=(1 if small else 2) if quick else 8)
         lap("loop_level")
         world_level(rep, cx, rng, sysd, reorder, n_runs=(1 if small else 2) if quick else 12)
@@ -726,6 +848,20 @@ def replay(rep: Report, path: str) -> int:
         d = f["data"]
         if "save" not in d:
             print("replay: (loop-level scenario) re-run `vcheck C27` with the recorded seed")
+            continue
+        if d.get("refuse") is not None:
+            import torch
+            torch.set_num_threads(1)
+            before = len(rep.failing)
+            refuse_level(rep, Ctx(rep), seeded(0), d["system"], d.get("reorder", False), None, n_saves=d["save"], only=d["refuse"])
+            new = [x for x in rep.failing[before:] if x["data"].get("save") == d["save"]]
+            for x in new:
+                print("replay:", x["what"])
+            if not new:
+                print(f"replay: autosave {d['save']}, rename refused with {d['refuse'][0]}"
+                      + (", killed at the next write-open of the advertised file" if d["refuse"][1] else "")
+                      + ": advertised file complete, resume ok — property holds on this input now")
+            bad += bool(new)
             continue
         if d.get("kill") is not None:
             # real process kill: fork, os._exit(9) at the recorded interposed call, inspect the directory, resume
